@@ -326,6 +326,9 @@ fn cmd_ipm(args: &Args) {
         if capture {
             p.tag.push_str("+print");
         }
+        if run % 3 == 1 {
+            p.tag.push_str("+touch");
+        }
         let opts = rec_ipm::RunOpts { capture_print: capture, detail: args.num("detail", 0) as usize, ..Default::default() };
         let out = rec_ipm::run_ipm(run, &p, &opts);
         cases.push(json!({"run": run, "problem": p}));
